@@ -223,7 +223,7 @@ type VGroup struct {
 	Chooses   [][2]string       `json:"chooses,omitempty"`
 	Schedule  []SchedEv         `json:"schedule,omitempty"`
 	Events    []string          `json:"events,omitempty"`
-	Resumes   []string          `json:"resumes,omitempty"`
+	Resumes   []ResumeEv        `json:"resumes,omitempty"`
 	Spin      bool              `json:"spin,omitempty"`
 	Now       string            `json:"now,omitempty"`
 }
@@ -241,7 +241,7 @@ type PathSample struct {
 	Chooses   [][2]string       `json:"chooses,omitempty"`
 	Schedule  []SchedEv         `json:"schedule,omitempty"`
 	Vector    []int             `json:"vector,omitempty"`
-	Resumes   []string          `json:"resumes,omitempty"`
+	Resumes   []ResumeEv        `json:"resumes,omitempty"`
 	Spin      bool              `json:"spin,omitempty"`
 }
 type Result struct {
@@ -279,7 +279,7 @@ type RaceInfo struct {
 	Kind    string            `json:"kind"`
 	Count   int               `json:"count"`
 	Chooses [][2]string       `json:"chooses,omitempty"`
-	Resumes []string          `json:"resumes,omitempty"`
+	Resumes []ResumeEv        `json:"resumes,omitempty"`
 	Model   map[string]string `json:"model,omitempty"`
 	Events  []string          `json:"events,omitempty"`
 }
